@@ -350,7 +350,35 @@ def static_features(prog):
     f = {"literal_unpack_length_mismatch": False, "literal_tuple_const_index_out_of_range": False,
          "literal_unpack_trailing_star_gets_nothing": False, "class_body_comprehension_with_closure_over_its_variable": False,
          "genexpr_walrus_to_global_and_inner_global_decl": False, "subscript_of_variable_iterating_range": False,
-         "sorted_of_conditional_expression": False, "conditional_of_str_literal_iteration_var_and_int_tuple_literal": False}
+         "sorted_of_conditional_expression": False, "conditional_of_str_literal_iteration_var_and_int_tuple_literal": False,
+         "lambda_in_code_after_constant_true_if_that_exits": False}
+
+    def truthy_literal(t):
+        return (t["t"] == "int" and t["i"] != 0) or (t["t"] == "str" and t["s"] != "") or t["t"] == "true" or \
+               (t["t"] == "tuple" and len(t["a"]) > 0 and _is_lit(t))
+
+    def exits(st):
+        if st["t"] in ("raise", "return"):
+            return True
+        if st["t"] == "block":
+            return bool(st["a"]) and exits(st["a"][-1])
+        return False
+
+    def flat(stmts):
+        out = []
+        for st in stmts:
+            if st["t"] == "block":
+                out.extend(flat(st["a"]))
+            else:
+                out.append(st)
+        return out
+    for n in walk(prog):
+        if n["t"] == "def":
+            body = flat(n["a"][0]["a"])
+            for i, st in enumerate(body):
+                if st["t"] == "if" and truthy_literal(st["a"][0]) and exits(st["a"][1]):
+                    if any(x["t"] == "lambda" for later in body[i + 1:] for x in walk(later)):
+                        f["lambda_in_code_after_constant_true_if_that_exits"] = True
     for n in walk(prog):
         if n["t"] == "call" and n["a"][0]["t"] == "name" and n["a"][0]["s"] == "sorted" and len(n["a"]) == 2 and n["a"][1]["t"] == "cond":
             f["sorted_of_conditional_expression"] = True
